@@ -22,62 +22,139 @@ from lint.common import AnalysisBroken
 LEVEL = 'other'
 
 
-def capacity_rules(run, F, E):
+def task_list_summaries(run, F, E):
+    """C10.a / C10.c for the task pool, decided on effect summaries (lint/symeval.py): each operation is evaluated once per combination
+    of the entry-state comparisons it branches on; per path, *what ends up stored where* (last store per cell), the exit values of
+    head / tail / last / count and the returned index must be those of a vacant-list pop / push -- however the body is spelled."""
+    from lint import symeval
+    from lint.symeval import Sym, Opaque, Elem
+    INV = 255
+
+    def entry():
+        return {'_vacantHead': Sym('vh'), '_vacantTail': Sym('vt'), '_last': Sym('last'), '_count': Sym('count')}
+
+    def final(stores):
+        m = {}
+        for a, i, v in stores:
+            m[(a.replace('..', '.'), i)] = v
+        return m
+
+    def decided(dec, op, a, b):
+        """truth value the path gave to `a op b` (in any spelling it was asked), or None"""
+        neg = {'==': '!=', '!=': '==', '<': '>=', '>=': '<', '>': '<=', '<=': '>'}
+        swap = {'==': '==', '!=': '!=', '<': '>', '>': '<', '<=': '>=', '>=': '<='}
+        for (o, x, y), v in dec.items():
+            if (o, x, y) == (op, a, b) or (swap.get(o), y, x) == (op, a, b):
+                return v
+            if (neg.get(o), x, y) == (op, a, b) or (swap.get(neg.get(o)), y, x) == (op, a, b):
+                return not v
+        return None
+
+    def paths_of(fn, args):
+        try:
+            return symeval.explore(lambda asm: symeval.Eval(F, entry(), ['_items'], asm), fn, args, limit=64)
+        except symeval.Refuse as ex:
+            raise AnalysisBroken('%s is outside the offset-domain fragment: %s' % (fn.short, ex))
+
     for fn in F.find('TaskListT', 'emplace'):
-        rec = F.rec_by_name.get(fn.cls) or {}
-        cap = rec.get('consts', {}).get('CAPACITY')
-        c = cfgmod.cfg_of(fn)
-        def has_room(t_):
-            t_ = ir.strip(t_)
-            return t_['k'] == 'bin' and t_['op'] == '<' and ir.pp(ir.strip(t_['l'])) == '_count' and ir.const_val(t_['r']) == cap
-        brd = ir.find_decisions(c, has_room)
-        br = [d[0] for d in brd]
-        ok = len(br) == 1
-        det = None
-        if ok:
-            t, f = brd[0][1], brd[0][2]
-            muts = c.events(('write', 'new'))
-            outside = [n for n in muts if not c.dominates(t, n)]
-            rets = c.events(('ret',))
-            full_ret = [ir.const_val(n.e.get('e')) for n in rets if c.dominates(f, n)]
-            ok_ret = [n for n in rets if c.dominates(t, n)]
-            ok = not outside and full_ret == [255] and len(ok_ret) == 1
-            if ok:
-                r = ir.strip(ok_ret[0].e.get('e'))
-                d = E.decls(fn).get(r.get('id')) if r.get('k') == 'var' else None
-                ok = d is not None and ir.pp(ir.strip(d['init'])) == '_vacantHead'
-            det = {'writes outside the capacity test': [ir.pp(n.e)[:60] for n in outside], 'full path returns': full_ret}
-        run.ob('C10.a', 'TaskListT<%s>::emplace: every write is under `_count < CAPACITY`; the full path writes nothing and returns INVALID' % cap,
-               ok, where=fn.pat, detail=None if ok else det, key='TaskListT::emplace writes without a capacity test (or mis-reports a full list)')
-        # count discipline
-        incs = [n for n in c.events(('write',)) if n.e.get('k') == 'un' and n.e.get('op') == '++' and ir.pp(ir.strip(n.e['e'])) == '_count']
-        okc = len(incs) == 1 and ok and not c.in_loop(incs[0])
-        if okc:
-            t = brd[0][1]
-            # on the success side the increment is unconditional
-            deps = [b for b in c.control_deps_closure(incs[0]) if b is not br[0]]
-            okc = not deps and c.dominates(t, incs[0])
-        run.ob('C10.c', 'TaskListT<%s>::emplace increments the count exactly once when it takes a slot' % cap, okc, where=fn.pat,
-               key='TaskListT::emplace does not count the slot it takes exactly once')
-        # the slot handed out is the head of the vacant list and is constructed from the arguments
-        news = c.events(('new',))
-        okn = len(news) == 1 and ir.pp(ir.strip(news[0].e['place'][0])) == '&item'
-        run.ob('C10.c', 'TaskListT<%s>::emplace constructs the task in the slot it returns' % cap, okn, where=fn.pat,
-               key='TaskListT::emplace constructs the task somewhere else')
+        cap = (F.rec_by_name.get(fn.cls) or {}).get('consts', {}).get('CAPACITY')
+        args = [Opaque('arg%d' % j) for j in range(len(fn.params))]
+        paths = paths_of(fn, args)
+        bad = None
+        kinds = set()
+        for dec, sm in paths:
+            room = decided(dec, '<', Sym('count'), cap)
+            if room is None and decided(dec, '<=', Sym('count'), cap - 1) is not None:
+                room = decided(dec, '<=', Sym('count'), cap - 1)
+            fm = final(sm.stores)
+            fl = sm.fields
+            if room is None:
+                bad = bad or {'path does not test the capacity': repr(dec)}
+                continue
+            if not room:
+                kinds.add('full')
+                ok = not sm.stores and fl == entry() and sm.ret == INV
+                if not ok:
+                    bad = bad or {'full path': {'stores': repr(sm.stores), 'fields': repr(fl), 'returns': repr(sm.ret)}}
+                continue
+            # a slot is taken: the slot is the entry head of the vacant list, the task is constructed there from the arguments, the
+            # count goes up by exactly one, the slot index is returned
+            slot = fm.get(('_items', Sym('vh')))
+            took = isinstance(slot, Opaque) and isinstance(slot.tag, tuple) and slot.tag[0] == 'constructed' and list(slot.tag[1:]) == args
+            ok = took and fl.get('_count') == Sym('count', 1) and sm.ret == Sym('vh')
+            one_left = decided(dec, '!=', Sym('vh'), Sym('vt'))
+            if one_left is True:
+                kinds.add('recycle')
+                nxt = Opaque(('entry', '_items..next', Sym('vh')))
+                nxt2 = Opaque(('entry', '_items.next', Sym('vh')))
+                head = fl.get('_vacantHead')
+                ok = ok and head in (nxt, nxt2) and fl.get('_vacantTail') == Sym('vt') and fl.get('_last') == Sym('last') and \
+                    (fm.get(('_items.prev', head)) == INV) and set(fm) == {('_items', Sym('vh')), ('_items.prev', head)}
+            elif one_left is False:
+                grow = None
+                for (o, x, y), v in dec.items():
+                    if x == Sym('last') and isinstance(y, int) and o in ('<', '<='):
+                        grow = (o, y, v)
+                if grow is None:
+                    ok = False
+                elif grow[2]:
+                    kinds.add('grow')
+                    ub = grow[1] - 1 if grow[0] == '<' else grow[1]      # last <= ub on this path
+                    nl = Sym('last', 1)
+                    ok = ok and ub + 1 <= cap - 1 and fl.get('_last') == nl and fl.get('_vacantHead') == nl and fl.get('_vacantTail') == nl and \
+                        fm.get(('_items.prev', nl)) == INV and fm.get(('_items.next', nl)) == INV and \
+                        set(fm) == {('_items', Sym('vh')), ('_items.prev', nl), ('_items.next', nl)}
+                else:
+                    kinds.add('last')
+                    ok = ok and fl.get('_last') == cap and fl.get('_vacantHead') == INV and fl.get('_vacantTail') == INV and set(fm) == {('_items', Sym('vh'))}
+            else:
+                ok = False
+            if not ok:
+                bad = bad or {'decisions': repr(dec), 'stores': repr(sm.stores), 'fields': repr(fl), 'returns': repr(sm.ret)}
+        complete = kinds == {'full', 'recycle', 'grow', 'last'}
+        run.ob('C10.a', 'TaskListT<%s>::emplace: with no room nothing is written and INVALID is returned; otherwise the vacant head is popped (recycle / grow by '
+               'one inside the array / last slot), the task is constructed there and its index returned (%d paths)' % (cap, len(paths)),
+               bad is None and complete, where=fn.pat, detail=bad or (None if complete else {'path kinds': sorted(kinds)}),
+               key='TaskListT::emplace writes without a capacity test (or mis-reports a full list)')
+        run.ob('C10.c', 'TaskListT<%s>::emplace increments the count exactly once when it takes a slot and constructs the task in the slot it returns' % cap,
+               bad is None and complete, where=fn.pat, detail=bad, key='TaskListT::emplace does not count the slot it takes exactly once')
     for fn in F.find('TaskListT', 'remove'):
-        c = cfgmod.cfg_of(fn)
-        decs = [n for n in c.events(('write',)) if n.e.get('k') == 'un' and n.e.get('op') == '--' and ir.pp(ir.strip(n.e['e'])) == '_count']
-        ok = len(decs) == 1 and c.postdominates(decs[0], c.entry) and not c.in_loop(decs[0])
-        run.ob('C10.c', 'TaskListT::remove decrements the count exactly once', ok, where=fn.pat, key='TaskListT::remove does not release exactly one slot')
-        # the released slot becomes the head of the vacant list on both paths
-        heads = [n for n in c.events(('write',)) if n.e.get('k') == 'asg' and ir.pp(ir.strip(n.e['l'])) == '_vacantHead']
-        okh = len(heads) == 2 and all(ir.strip(n.e['r']).get('pi') == 0 for n in heads)
-        run.ob('C10.c', 'TaskListT::remove makes the released slot the head of the vacant list', okh, where=fn.pat,
-               key='TaskListT::remove does not put the released slot on the vacant list')
+        cap = (F.rec_by_name.get(fn.cls) or {}).get('consts', {}).get('CAPACITY')
+        paths = paths_of(fn, [Sym('i')])
+        bad = None
+        kinds = set()
+        for dec, sm in paths:
+            room = decided(dec, '<', Sym('count'), cap)
+            fm = final(sm.stores)
+            fl = sm.fields
+            ok = fl.get('_count') == Sym('count', -1) and fl.get('_vacantHead') == Sym('i') and fl.get('_last') == Sym('last')
+            if room is True:
+                kinds.add('push')
+                ok = ok and fl.get('_vacantTail') == Sym('vt') and fm == {('_items.prev', Sym('i')): INV, ('_items.next', Sym('i')): Sym('vh'),
+                                                                       ('_items.prev', Sym('vh')): Sym('i')}
+            elif room is False:
+                kinds.add('first')
+                ok = ok and fl.get('_vacantTail') == Sym('i') and fm == {('_items.prev', Sym('i')): INV, ('_items.next', Sym('i')): INV}
+            else:
+                ok = False
+            if not ok:
+                bad = bad or {'decisions': repr(dec), 'stores': repr(sm.stores), 'fields': repr(fl)}
+        run.ob('C10.c', 'TaskListT<%s>::remove releases exactly one slot: count - 1, the slot becomes the head of the vacant list and is linked in front of '
+               'the old head (or is the only vacant slot when the list was full) (%d paths)' % (cap, len(paths)), bad is None and kinds == {'push', 'first'},
+               where=fn.pat, detail=bad, key='TaskListT::remove does not put the released slot on the vacant list')
     for fn in F.find('TaskListT', 'clear'):
-        ws = sorted((ir.pp(ir.strip(e['l'])), ir.const_val(e['r'])) for e in ir.all_exprs(fn) if e['k'] == 'asg')
-        run.ob('C10.c', 'TaskListT::clear resets head, tail, last and count to 0', ws == [('_count', 0), ('_last', 0), ('_vacantHead', 0), ('_vacantTail', 0)],
-               where=fn.pat, detail=ws, key='TaskListT::clear does not reset the list')
+        ev = symeval.Eval(F, entry(), ['_items'])
+        try:
+            sm = ev.run(fn, [])
+        except symeval.Refuse as ex:
+            raise AnalysisBroken('TaskListT::clear is outside the offset-domain fragment: %s' % ex)
+        ok = all(sm.fields.get(k) == 0 for k in ('_vacantHead', '_vacantTail', '_last', '_count'))
+        run.ob('C10.c', 'TaskListT::clear resets head, tail, last and count to 0', ok, where=fn.pat, detail=repr(sm.fields),
+               key='TaskListT::clear does not reset the list')
+
+
+def capacity_rules(run, F, E):
+    task_list_summaries(run, F, E)
     for fn in F.find('PlanT', 'append'):
         rec = F.rec_by_name.get(fn.cls) or {}
         cap = rec.get('consts', {}).get('TASK_CAPACITY')
